@@ -320,28 +320,35 @@ def run_case(drv: Driver, case: dict) -> Result:
                                      f"coords={L.coords.tolist()} for {coords}", via=name)
                     return res
         res.branches["history-returned-" + op] += 1
-    n = L.number_of_traps
-    sorted_mu = mu_coords(L.coords.tolist())
+    # Expectations are recomputed here from the given coordinates (numpy rounding to 1e-6, Python's stable
+    # sort on (x, y, z)); nothing below takes the layout's own word for ids, order or coordinates.
+    n = len(coords)
+    dim_exp = len(coords[0])
+    order_exp = sorted(range(n), key=lambda i: (tuple(cmu[i]), i))
+    sorted_mu = [cmu[i] for i in order_exp]
+    td_exp = {k: [rnd(v) + 0.0 for v in coords[i]] for k, i in enumerate(order_exp)}
+    real_sorted_mu = mu_coords(L.coords.tolist())
     order_real = [int(i) for i in L._calc_sorting_order()]
-    res.branches["dim%d" % L.dimensionality] += 1
+    res.branches["dim%d" % dim_exp] += 1
     res.branches["collapsed" if collapsed else "distinct"] += 1
     # correspondence: numbering
-    if sorted_mu != parse_coords(md["sorted"]) or int(md["dim"]) != L.dimensionality:
-        res.diverge.append(("ids", f"sorted coords real={sorted_mu} model={md['sorted']}"))
+    if real_sorted_mu != parse_coords(md["sorted"]) or int(md["dim"]) != L.dimensionality:
+        res.diverge.append(("ids", f"sorted coords real={real_sorted_mu} model={md['sorted']}"))
     if order_real != parse_list(md["order"], int):
         res.diverge.append(("ids", f"sorting order real={order_real} model={md['order']}"))
     # monitor: canonical numbering
     td = L.traps_dict
-    if list(td.keys()) != list(range(len(coords))) or n != len(coords):
-        fail("ids", f"trap ids are {list(td.keys())} for {len(coords)} coordinates")
-    if not lex_sorted(sorted_mu):
-        fail("ids", f"sorted coords not ascending (x, y, z): {sorted_mu}")
-    if sorted(map(tuple, sorted_mu)) != sorted(map(tuple, cmu)):
-        fail("ids", "sorted coords are not the given coordinates (rounded)")
+    if list(td.keys()) != list(range(n)) or L.number_of_traps != n or L.dimensionality != dim_exp:
+        fail("ids", f"trap ids are {list(td.keys())}, number_of_traps={L.number_of_traps}, dimensionality="
+                    f"{L.dimensionality} for {n} coordinates of size {dim_exp}")
+    if real_sorted_mu != sorted_mu:
+        fail("ids", f"sorted coords {real_sorted_mu} are not the given coordinates rounded and in ascending "
+                    f"(x, y, z) order {sorted_mu}")
+    if order_real != order_exp and not collapsed:
+        fail("ids", f"sorting order {order_real}, expected {order_exp}")
     for i in range(n):
-        want = [rnd(v) for v in coords[order_real[i]]] if sorted(order_real) == list(range(n)) else None
-        if want is None or [float(v) for v in td[i]] != want:
-            fail("ids", f"trap {i} is not the rounded value of the input coordinate")
+        if i not in td or [float(v) for v in td[i]] != td_exp[i] or [float(v) for v in L.coords[i]] != td_exp[i]:
+            fail("ids", f"trap {i} is {td.get(i)} / {L.coords[i]}, not the rounded input coordinate {td_exp[i]}")
             break
     if len({tuple(c) for c in sorted_mu}) != n:
         fail("rounded-coords-distinct", f"{n} traps on {len({tuple(c) for c in sorted_mu})} rounded coordinates: "
@@ -412,7 +419,7 @@ def run_case(drv: Driver, case: dict) -> Result:
             got = [int(i) for i in real[1]]
             if got != parse_list(model[1], int):
                 res.diverge.append(("lookup", f"real={got} model={model[1]}"))
-            want = [order_real.index(j) for j in idxs]
+            want = [order_exp.index(j) for j in idxs]
             if got != want:
                 fail("lookup-inverse", f"given coordinates {idxs} look up to {got}, traps are {want}")
         elif real[0] == "err":
@@ -456,15 +463,15 @@ def run_case(drv: Driver, case: dict) -> Result:
             if got_ids != want_ids:
                 fail("define-register-places", f"qubit ids {got_ids} != {want_ids}")
             for k, (q, p) in enumerate(rq.items()):
-                if not np.array_equal(np.asarray(p.as_array(), dtype=float), np.asarray(td[ids[k]], dtype=float)):
-                    fail("define-register-places", f"qubit {q} at {p} is not on trap {ids[k]} {td[ids[k]]}")
+                if np.asarray(p.as_array(), dtype=float).tolist() != td_exp[ids[k]]:
+                    fail("define-register-places", f"qubit {q} at {p} is not on trap {ids[k]} {td_exp[ids[k]]}")
                     break
             if got_traps != list(ids) or reg.layout is None or not (reg.layout == L):
                 fail("define-register-places", "register does not remember its layout / trap ids")
             # look-up inverse
             back = real_call(lambda: L.get_traps_from_coordinates(
                 *[np.asarray(p.as_array()) for p in rq.values()]))
-            mb = ask(f"lookup {wire_coords(cmu)} {wire_coords(got_pos)}")
+            mb = ask(f"lookup {wire_coords(cmu)} {wire_coords([sorted_mu[i] for i in ids])}")
             if cmp_status("lookup", back, mb):
                 gb = [int(i) for i in back[1]]
                 if gb != parse_list(mb[1], int):
@@ -483,11 +490,11 @@ def run_case(drv: Driver, case: dict) -> Result:
         import pulser
 
         ids, qids, offs = dd["ids"], dd["qids"], dd["offsets"]
-        true_td = {i: [float(v) for v in c] for i, c in enumerate(L.coords.tolist())}
-        pdim = dd.get("dim", L.dimensionality)
+        true_td = td_exp
+        pdim = dd.get("dim", dim_exp)
         pos = []
         for k, off in enumerate(offs):
-            base = true_td.get(ids[k] if k < len(ids) else -1, [0.0] * L.dimensionality)
+            base = true_td.get(ids[k] if k < len(ids) else -1, [0.0] * dim_exp)
             base = (list(base) + [0.0] * pdim)[:pdim]
             pos.append([float(b) + float(o) for b, o in zip(base, (list(off) + [0.0] * pdim)[:pdim])])
         cls = pulser.Register3D if pdim == 3 else pulser.Register
@@ -504,7 +511,7 @@ def run_case(drv: Driver, case: dict) -> Result:
         in_range = all(0 <= i < n for i in ids)
         on_traps = (len(ids) == len(pos) and in_range
                     and all(p == true_td[i] for p, i in zip(pos, ids)))
-        exp_ok = (len(pos) > 0 and pdim == L.dimensionality and len(set(ids)) == len(ids)
+        exp_ok = (len(pos) > 0 and pdim == dim_exp and len(set(ids)) == len(ids)
                   and len(ids) == len(pos) and in_range and on_traps)
         worst = max([abs(float(o)) for off in offs for o in off] + [0.0])
         if (real[0] == "ok") != exp_ok:
@@ -580,7 +587,7 @@ def run_case(drv: Driver, case: dict) -> Result:
             if got_ids != list(declared[:k]):
                 fail("mappable-order", f"qubits {got_ids}, declared order {declared[:k]}")
             for q, p in reg.qubits.items():
-                if not np.array_equal(np.asarray(p.as_array(), dtype=float), np.asarray(td[qd[q]], dtype=float)):
+                if np.asarray(p.as_array(), dtype=float).tolist() != td_exp[qd[q]]:
                     fail("mappable-order", f"qubit {q} mapped to trap {qd[q]} sits at {p}")
                     break
         res.branches["mappable-" + ("ok" if real[0] == "ok" else "err")] += 1
@@ -621,7 +628,7 @@ def run_case(drv: Driver, case: dict) -> Result:
                     return False
         return True
 
-    def check_weight_map(dm, clause, given_mu, given_w, positions, qids=None):
+    def check_weight_map(dm, clause, given_mu, given_w, positions, qids=None, real_qubits=None):
         """correspondence + monitor of sorted_weights / get_qubit_weight_map on `positions`"""
         pos_mu = mu_coords(positions)
         m = ask(f"wmap {wire_coords(given_mu)} {wire_list(given_w, common.rat)} {wire_coords(pos_mu)}")
@@ -641,7 +648,14 @@ def run_case(drv: Driver, case: dict) -> Result:
                 sw_real[i] not in decl[tuple(sc_real[i])] for i in range(len(sc_real))):
             fail("sorted-weights", f"sorted_weights {sw_real} do not carry the declared weights {dict(decl)}")
         names = qids if qids is not None else [f"p{i}" for i in range(len(positions))]
-        qmap = dm.get_qubit_weight_map(dict(zip(names, [np.asarray(p, dtype=float) for p in positions])))
+        # queried with the register's own qubit dict when there is one (the documented use); the expected
+        # weights below are computed from `positions`, the harness's own idea of where the qubits are
+        qmap = dm.get_qubit_weight_map(real_qubits if real_qubits is not None else dict(
+            zip(names, [np.asarray(p, dtype=float) for p in positions])))
+        if real_qubits is not None and [str(q) for q in qmap.keys()] != list(names):
+            fail("weight-lookup", f"weight map keyed by {list(qmap.keys())}, the register's qubits are {names}",
+                 cause="qubit-ids")
+            return None
         got = [qmap[q] for q in names]
         qw_model = parse_list(mm["qw"], Fraction)
         for i, p in enumerate(pos_mu):
@@ -698,13 +712,15 @@ def run_case(drv: Driver, case: dict) -> Result:
                 res.diverge.append(("detmap-define", f"real=({given_mu},{given_w}) model={mm}"))
             if given_mu != [sorted_mu[i] for i, _ in pairs] or given_w != [float(w) for _, w in pairs]:
                 fail("detmap-define", "detuning map does not carry the chosen traps / weights")
+            # from here on the declared traps / weights, not what the map says about itself
+            given_mu, given_w = [sorted_mu[i] for i, _ in pairs], [float(w) for _, w in pairs]
             reg_ids = ld.get("reg_ids") or []
             rr = real_call(lambda: L.define_register(*reg_ids)) if reg_ids else ("err", "none")
             if rr[0] == "ok":
                 reg = rr[1]
-                names = list(reg.qubits.keys())
-                positions = [np.asarray(p.as_array()).tolist() for p in reg.qubits.values()]
-                got = check_weight_map(dm, "weight-lookup", given_mu, given_w, positions, names)
+                names = [f"q{i}" for i in range(len(reg_ids))]
+                positions = [td_exp[i] for i in reg_ids]
+                got = check_weight_map(dm, "weight-lookup", given_mu, given_w, positions, names, reg.qubits)
                 if got is not None and not collapsed:
                     for q, tid, g in zip(names, reg_ids, got):
                         want = float(wd.get(tid, 0.0))
@@ -790,7 +806,7 @@ def run_case(drv: Driver, case: dict) -> Result:
         real = real_call(lambda: reg.define_detuning_map(wd))
         model = ask(f"rdet {wire_coords(cmu)} {wire_list(enc_ids(ids, n))} - "
                     f"{wire_list([f'{q}:{common.rat(w)}' for q, w in pairs])}")
-        names = list(reg.qubits.keys())
+        names = [f"q{i}" for i in range(len(ids))]
         k = len(pairs)
         sel = [sorted_mu[ids[names.index(q)]] for q, _ in pairs if q in names]
         exp_ok = (k > 0 and set(wd) <= set(names) and all(0 <= w <= 1 for _, w in pairs)
@@ -808,8 +824,13 @@ def run_case(drv: Driver, case: dict) -> Result:
             given_w = [float(w) for w in dm.weights]
             if given_mu != parse_coords(mm["pos"]) or [frac(w) for w in given_w] != parse_list(mm["w"], Fraction):
                 res.diverge.append(("detmap-define", f"real=({given_mu},{given_w}) model={mm}"))
-            positions = [np.asarray(p.as_array()).tolist() for p in reg.qubits.values()]
-            got = check_weight_map(dm, "weight-lookup", given_mu, given_w, positions, names)
+            exp_mu = [sorted_mu[ids[names.index(q)]] for q, _ in pairs]
+            if given_mu != exp_mu or given_w != [float(w) for _, w in pairs]:
+                fail("detmap-define", "register detuning map does not carry the chosen qubits' positions / weights",
+                     via="register")
+            given_mu, given_w = exp_mu, [float(w) for _, w in pairs]
+            positions = [td_exp[i] for i in ids]
+            got = check_weight_map(dm, "weight-lookup", given_mu, given_w, positions, names, reg.qubits)
             if got is not None and not collapsed:
                 for q, g in zip(names, got):
                     if abs(g - float(wd.get(q, 0.0))) > 1e-12 and not crowded(sorted_mu[ids[names.index(q)]]):
@@ -848,17 +869,51 @@ def run_special(spec: dict) -> list[Fail]:
             want_n = spec["r"] * spec["c"]
     except Exception as e:  # noqa: BLE001
         return [Fail("special-layout", f"{spec}: {type(e).__name__}: {e}", kind=kind, collapsed=False)]
-    td = L.traps_dict
-    tids = list(reg._layout_info.trap_ids)
-    ok = len(reg.qubits) == want_n and len(set(tids)) == want_n and reg.layout == L
-    for (q, p), t in zip(reg.qubits.items(), tids):
-        ok = ok and np.array_equal(np.asarray(p.as_array(), dtype=float), np.asarray(td[t], dtype=float))
-    ok = ok and L.get_traps_from_coordinates(*[np.asarray(p.as_array()) for p in reg.qubits.values()]) == tids
-    smu = mu_coords(L.coords.tolist())
-    ok = ok and lex_sorted(smu) and len({tuple(c) for c in smu}) == L.number_of_traps
+    # expectations: the lattice generator (leaf numerics, `pulser.register._patterns`) times the spacing gives
+    # the raw points; ids / coordinates by the harness's own rounding and sort, not by the layout's word
+    from pulser.register import _patterns as patterns
+
+    def scaled(pts, sx, sy):
+        pts = np.array(pts, dtype=float)
+        pts[:, 0] = pts[:, 0] * sx
+        pts[:, 1] = pts[:, 1] * sy
+        return pts.tolist()
+
+    sp = float(spec["spacing"])
+    if kind == "square":
+        raw_l, raw_r = scaled(patterns.square_rect(spec["rows"], spec["cols"]), sp, sp), \
+            scaled(patterns.square_rect(spec["r"], spec["c"]), sp, sp)
+    elif kind == "rect":
+        sp2 = float(spec["spacing2"])
+        raw_l, raw_r = scaled(patterns.square_rect(spec["rows"], spec["cols"]), sp, sp2), \
+            scaled(patterns.square_rect(spec["r"], spec["c"]), sp, sp2)
+    elif kind == "tri-hex":
+        raw_l, raw_r = (patterns.triangular_hex(spec["n"]) * sp).tolist(), \
+            (patterns.triangular_hex(spec["k"]) * sp).tolist()
+    else:
+        raw_l, raw_r = (patterns.triangular_hex(spec["n"]) * sp).tolist(), \
+            (patterns.triangular_rect(spec["r"], spec["c"]) * sp).tolist()
+    lmu = mu_coords(raw_l)
+    order = sorted(range(len(lmu)), key=lambda i: (tuple(lmu[i]), i))
+    exp_mu = [lmu[i] for i in order]
+    exp_pos = [[rnd(v) + 0.0 for v in raw_l[i]] for i in order]
+    try:
+        want_ids = [exp_mu.index(c) for c in mu_coords(raw_r)]
+    except ValueError:
+        want_ids = None
+    tids = [int(t) for t in reg._layout_info.trap_ids]
+    ok = (want_ids is not None and len(want_ids) == want_n and tids == want_ids
+          and [str(q) for q in reg.qubits.keys()] == [f"q{i}" for i in range(want_n)] and reg.layout == L
+          and len(set(map(tuple, exp_mu))) == len(exp_mu) == L.number_of_traps
+          and [[float(v) for v in c] for c in L.coords.tolist()] == exp_pos)
+    if ok:
+        for p_, t in zip(reg.qubits.values(), want_ids):
+            ok = ok and np.asarray(p_.as_array(), dtype=float).tolist() == exp_pos[t]
+        ok = ok and [int(i) for i in L.get_traps_from_coordinates(
+            *[np.asarray(p_.as_array()) for p_ in reg.qubits.values()])] == want_ids
     if not ok:
-        fails.append(Fail("special-layout", f"{spec}: register is not on the traps of its layout", kind=kind,
-                          collapsed=False))
+        fails.append(Fail("special-layout", f"{spec}: register is not on the traps of its layout (trap ids {tids}, "
+                                            f"expected {want_ids})", kind=kind, collapsed=False))
     return fails
 
 
